@@ -27,7 +27,14 @@ var uniqueHandles = map[string]*value{}
 
 var globalOverrides = map[string]func(i *interpreter, pkg *ssa.Package){}
 
+// realIPString (run parameter REAL_IPSTRING=1): interpret the real net.IP.String instead of the
+// opaque injective rendering, for obligations that need the decimal text itself (C11 round trip).
+var realIPString bool
+
 func findIntrinsic(fn *ssa.Function, name string) intrinsic {
+	if realIPString && name == "(net.IP).String" {
+		return nil
+	}
 	if in, ok := intrinsics[name]; ok {
 		if fn.Pkg == nil || !isHarnessPrimName(fn.Name()) {
 			modelsUsed[name]++
